@@ -48,7 +48,7 @@ func raceMain(args []string) {
 						if lang == bip39.Japanese {
 							sep = "　"
 						}
-						return fmt.Sprintf("ok words=%d", len(strings.Split(s, sep)))
+						return fmt.Sprintf("ok words=%d %s", len(strings.Split(s, sep)), hx([]byte(s)))
 					}))
 					continue
 				}
